@@ -667,3 +667,345 @@ def r8(cx):
 
 
 RS.explanation += ' A finished job keeps its final state: update_status ignores reports for a terminated job (R8).'
+
+
+# ---------------------------------------------------------------------------------------
+# added after seed C12-b (any_job_but_current "simplified" to Iterator::position)
+# A value that COUNTS things (an iteration position, the .0 of enumerate(), count(), len()) is not a job index: job
+# indices are slab keys, they keep their value while lower-numbered jobs are removed.  Interprocedural forward taint
+# over the MIR of the whole workspace: labels flow through copies, borrows, arithmetic, Option/Result/iterator
+# adapters (closures are analysed at their call site with the labels of their captures and arguments), `?`, numeric
+# conversions and through workspace functions by summaries (parameter -> return, parameter -> sink).
+_CMP_OPS = {'Eq', 'Ne', 'Lt', 'Le', 'Gt', 'Ge', 'Cmp'}
+_WRAPPER_ADTS = re.compile(r'^core::(option::Option|result::Result|ops::control_flow::ControlFlow|task::poll::Poll|cmp::Reverse|'
+                           r'num::wrapping::Wrapping|num::saturating::Saturating|num::nonzero::NonZero)\b')
+# calls whose result is (a wrapper of / an iterator over) what went in
+_THROUGH = re.compile(
+    r'^core::option::Option::<[^>]*>::\w+$|^core::result::Result::<T, E>::\w+$|'
+    r'Try>?::branch$|FromResidual(<.*>)?>?::from_residual$|From(<.*>)?>?::from$|Into(<.*>)?>?::into$|'
+    r'TryFrom(<.*>)?>?::try_from$|TryInto(<.*>)?>?::try_into$|Clone>?::clone$|ToOwned>?::to_owned$|Deref>?::deref$|DerefMut>?::deref_mut$|'
+    r'Borrow(Mut)?(<.*>)?>?::borrow(_mut)?$|AsRef(<.*>)?>?::as_ref$|^core::num::|^core::cmp::(min|max)$|Ord>?::(min|max|clamp)$|'
+    r'^core::ops::arith::\w+::\w+$|core::ops::arith::\w+(<.*>)?>::\w+$|^core::bool::<impl bool>::then(_some)?$|^core::convert::identity$|'
+    r'^core::mem::(replace|take)$|^core::iter::(once|repeat|successors|from_fn)')
+_ITER = re.compile(r'(^|[ :])(core::iter::traits::(iterator::Iterator|double_ended::DoubleEndedIterator|collect::IntoIterator))>?::\w+$')
+# adapters whose result carries only what the closure returns (the receiver's items are consumed by the closure)
+_MAPPERS = re.compile(r'::(map|and_then|map_or|map_or_else|filter_map|find_map|flat_map|then|fold|try_fold|scan|map_while|is_some_and|is_none_or)$')
+_COUNT_NAMES = re.compile(r'::(position|rposition|count|len|capacity)$')
+_ENUMERATE = re.compile(r'Iterator>?::enumerate$')
+_KEY_ITERS = [JL + 'iter', JL + 'iter_mut', S + 'iter', S + 'iter_mut',
+              re.compile(r"^<&'a (mut )?(slab::Slab<T>|yash_env::job::JobList) as core::iter::traits::collect::IntoIterator>::into_iter$")]
+_SLAB_KEYED = re.compile(r'^slab::Slab::<T>::(get|get_mut|contains|try_remove|remove|get2_mut|get_disjoint_mut|get_unchecked|get_unchecked_mut)$|'
+                         r'^<slab::Slab<T> as core::ops::index::Index(Mut)?<usize>>::index(_mut)?$')
+_INDEX_FIELDS = ('current_job_index', 'previous_job_index')
+_VAL = 'val'
+
+
+def _strip_ref(ty):
+    ty = (ty or '').strip()
+    m = re.match(r"^&('\w+ )?(mut )?", ty)
+    return ty[m.end():] if m and m.end() else ty
+
+
+def _on_jobs(t):
+    return 'yash_env::job::Job' in (t['f'].get('ga') or '') or any('yash_env::job::Job' in x for x in t.get('at', []))
+
+
+class _CountFlow:
+    """labels: (kind, ident, shape); kind 'S' = a count (ident = (what, function, location)), 'K' = a slab key handed out by
+    the job slab's own iterator (control: shows that the engine follows the selection code), 'P' = the caller's argument
+    number ident.  shape 'val' = the value itself (or a wrapper / iterator of it), ('t', k) = a tuple whose field k is it."""
+
+    def __init__(self, F):
+        self.F = F
+        self.memo = {}
+        self.busy = set()
+        self.sources = {}       # (function, what) -> location
+        self.sinks = {}         # (function, sink kind) -> location
+        self.hits = {}          # (function root, sink kind, label) -> (location, label)
+        self.du = {}
+
+    # -- label algebra
+    def place_labels(self, body, lab, pl):
+        cur = lab.get(pl['l'])
+        if not cur:
+            return frozenset()
+        ty = body.locals[pl['l']].get('ty', '')
+        for e in pl.get('p') or []:
+            if e == '*':
+                ty = _strip_ref(ty)
+            elif isinstance(e, dict) and 'f' in e:
+                if 'adt' not in e and _strip_ref(ty).startswith('('):
+                    cur = frozenset((k, i, _VAL) if sh != _VAL else (k, i, sh) for k, i, sh in cur
+                                    if sh == _VAL or sh == ('t', str(e['f'])))
+                ty = e.get('ty', '')
+            elif isinstance(e, dict) and 'v' in e:
+                pass
+            else:
+                ty = ''
+            if not cur:
+                break
+        return cur
+
+    def op_labels(self, body, lab, o):
+        p = Q.operand_place(o)
+        return self.place_labels(body, lab, p) if p is not None else frozenset()
+
+    # -- one body
+    def analyse(self, fn, init):
+        """-> (labels of the return value, [(label, sink kind, function root, location)])"""
+        key = (fn, tuple(sorted((k, tuple(sorted(v, key=repr))) for k, v in init.items() if v)))
+        if key in self.memo:
+            return self.memo[key]
+        if key in self.busy or fn not in self.F.bodies:
+            return frozenset(), []
+        self.busy.add(key)
+        body = self.F.bodies[fn]
+        du = self.du.get(fn)
+        if du is None:
+            du = self.du[fn] = Q.DefUse(body)
+        lab = {l: frozenset(v) for l, v in init.items() if v}
+        hits = {}
+
+        def add(l, new):
+            new = frozenset(x for x in new)
+            if not new or new <= lab.get(l, frozenset()):
+                return False
+            ty = body.locals[l].get('ty', '')
+            if ty in ('bool', '()', '!'):
+                return False
+            lab[l] = lab.get(l, frozenset()) | new
+            return True
+
+        def sink(labels, kind, node):
+            self.sinks.setdefault((body.root, kind), body.loc(node))
+            for x in labels:
+                if x[2] == _VAL:
+                    hits[(x, kind, body.root)] = body.loc(node)
+
+        def index_field(pl):
+            proj = (pl or {}).get('p') or []
+            if proj and isinstance(proj[-1], dict) and proj[-1].get('adt') == JOBLIST and proj[-1].get('f') in _INDEX_FIELDS:
+                return proj[-1]['f']
+            return None
+
+        changed = True
+        rounds = 0
+        while changed and rounds < 40:
+            changed = False
+            rounds += 1
+            for b, j, s in body.stmts():
+                if s['k'] != 'assign':
+                    continue
+                rv = s['rv']
+                k = rv['k']
+                new = frozenset()
+                if k in ('use', 'cast', 'repeat'):
+                    new = self.op_labels(body, lab, rv['o'])
+                elif k in ('ref', 'rawptr'):
+                    new = self.place_labels(body, lab, rv['pl'])
+                elif k == 'binop':
+                    if rv.get('op') not in _CMP_OPS:
+                        new = frozenset(x for o in (rv['a'], rv['b']) for x in self.op_labels(body, lab, o) if x[2] == _VAL)
+                elif k == 'unop':
+                    if rv.get('op') in ('Neg', 'Not'):
+                        new = self.op_labels(body, lab, rv['o'])
+                elif k == 'agg':
+                    ak = rv.get('ak')
+                    if ak == 'tuple':
+                        acc = set()
+                        for n, o in enumerate(rv['ops']):
+                            for x in self.op_labels(body, lab, o):
+                                acc.add((x[0], x[1], ('t', str(n))) if x[2] == _VAL else x)
+                        new = frozenset(acc)
+                    elif ak in ('closure', 'array') or (ak == 'adt' and _WRAPPER_ADTS.search(rv.get('adt') or '')):
+                        new = frozenset(x for o in rv['ops'] for x in self.op_labels(body, lab, o))
+                    # other aggregates (structs with named roles): a count stored in a struct is a count *of that struct*
+                lhs = s['lhs']
+                fld = index_field(lhs)
+                if fld:
+                    sink(new, fld, s)
+                elif not lhs.get('p'):
+                    changed |= add(lhs['l'], new)
+                elif new and not any(isinstance(e, dict) and 'adt' in e and not _WRAPPER_ADTS.search(e['adt']) for e in lhs['p']):
+                    changed |= add(lhs['l'], new)
+            for b, t in body.calls():
+                changed |= self.call(body, du, lab, t, add, sink, index_field, hits)
+        res = (lab.get(0, frozenset()), [(x, kind, root, loc) for (x, kind, root), loc in hits.items()])
+        self.busy.discard(key)
+        self.memo[key] = res
+        return res
+
+    def closure_def(self, du, o):
+        if 'fn' in o:
+            return o['fn'], None
+        org = du.origin(o)
+        if org.get('k') == 'agg' and org['rv'].get('ak') == 'closure':
+            return org['rv'].get('def'), Q.operand_local(o)
+        if org.get('k') == 'const' and org['o'].get('fn'):
+            return org['o']['fn'], None
+        return None, None
+
+    def call(self, body, du, lab, t, add, sink, index_field, hits):
+        F = self.F
+        names = callee_names_of(t)
+        args = t['a']
+        al = [self.op_labels(body, lab, a) for a in args]
+        dest = t['dest']
+        dty = t.get('dty') or ''
+
+        def out(new):
+            if dest.get('p'):
+                return add(dest['l'], new) if new else False
+            return add(dest['l'], new)
+
+        # sinks: the key argument of an accessor of the job slab
+        if any(_SLAB_KEYED.search(n) for n in names) and _on_jobs(t):
+            for x in al[1:]:
+                sink(x, 'slab-key', t)
+            return False
+        # mem::replace / swap on an index field
+        if any(n in ('core::mem::replace', 'core::mem::swap') for n in names) and args:
+            fld = index_field(_trace_place(du, args[0]))
+            if fld:
+                sink(al[1] if len(al) > 1 else frozenset(), fld, t)
+                return False
+        # sources
+        if any(_COUNT_NAMES.search(n) for n in names) and re.match(r'^(core::option::Option<)?usize>?$', dty):
+            what = [m.group(1) for m in (_COUNT_NAMES.search(n) for n in names) if m][0]
+            src = ('S', (what, body.fn, body.loc(t)), _VAL)
+            self.sources.setdefault((body.fn, what), body.loc(t))
+            return out(frozenset([src]))
+        if any(_ENUMERATE.search(n) for n in names):
+            self.sources.setdefault((body.fn, 'enumerate'), body.loc(t))
+            return out(frozenset([('S', ('enumerate', body.fn, body.loc(t)), ('t', '0'))]))
+        if Q.callee_is(t, _KEY_ITERS) and _on_jobs_or_list(t):
+            return out(frozenset([('K', ('slab-iter', body.fn, body.loc(t)), ('t', '0'))]))
+        # std adapters, wrappers, conversions
+        it = any(_ITER.search(n) for n in names)
+        if it or any(_THROUGH.search(n) for n in names):
+            mapper = any(_MAPPERS.search(n) for n in names)
+            new = set()
+            fn_args = []
+            for n, a in enumerate(args):
+                d, cl = self.closure_def(du, a)
+                if d is not None and d in F.bodies:
+                    fn_args.append((n, d, cl))
+            fn_pos = {n for n, _, _ in fn_args}
+            plain = [n for n in range(len(args)) if n not in fn_pos]
+            recv = [n for n in plain if n == 0] if it else plain
+            if not (mapper and fn_args):
+                for n in recv:
+                    new |= al[n]
+            elif mapper:
+                for n in plain[1:]:
+                    new |= al[n]            # map_or(default, f)
+            passed = frozenset(x for n in recv for x in al[n])
+            for n, d, cl in fn_args:
+                cb = F.bodies[d]
+                if cl is not None:       # a closure: environment = the closure value, arguments = what the adapter was given
+                    init = {1: al[n]}
+                    for p in range(2, cb.argc + 1):
+                        init[p] = passed
+                else:
+                    init = {p: passed for p in range(1, cb.argc + 1)}
+                ret, sub = self.analyse(d, init)
+                for x, kind, root, loc in sub:
+                    hits[(x, kind, root)] = loc
+                if cb.locals[0].get('ty') not in ('bool', '()', '!'):
+                    new |= ret
+            return out(frozenset(new))
+        # workspace functions: summaries with placeholders for the arguments
+        d = t['f'].get('def')
+        if d in F.bodies and not F.bodies[d].d.get('coroutine'):
+            cb = F.bodies[d]
+            want_ret = 'usize' in dty
+            want_args = [n for n in range(min(len(args), cb.argc)) if al[n] and 'usize' in (cb.locals[n + 1].get('ty') or '')]
+            if not want_ret and not want_args:
+                return False
+            init = {n + 1: frozenset([('P', n + 1, _VAL)]) for n in range(cb.argc) if 'usize' in (cb.locals[n + 1].get('ty') or '')}
+            ret, sub = self.analyse(d, init)
+            new = set()
+            for x in ret:
+                if x[0] == 'P':
+                    if x[1] - 1 < len(al):
+                        new |= set(al[x[1] - 1]) if x[2] == _VAL else {(y[0], y[1], x[2]) for y in al[x[1] - 1] if y[2] == _VAL}
+                else:
+                    new.add(x)
+            for x, kind, root, loc in sub:
+                if x[0] == 'P':
+                    if x[1] - 1 < len(al):
+                        for y in al[x[1] - 1]:
+                            if y[2] == _VAL:
+                                hits[(y, kind, root)] = loc
+                # labels that are not placeholders were reported when the callee itself was analysed
+            return out(frozenset(new)) if want_ret else False
+        return False
+
+
+def callee_names_of(t):
+    return Q.callee_names(t)
+
+
+def _on_jobs_or_list(t):
+    return _on_jobs(t) or any('yash_env::job::JobList' in x for x in t.get('at', [])) or Q.callee_is(t, [JL + 'iter', JL + 'iter_mut'])
+
+
+@RS.rule('C12.R9', 'K-TAINT', 'a value that counts things is never a job index: no iteration position (Iterator::position / rposition, the .0 of '
+         'enumerate()), count() or len() flows into current_job_index / previous_job_index or into the key of an accessor of the job '
+         'slab - job indices are slab keys (insert, the key of iter() pairs, pids_to_indices values, parameters) and stay put while '
+         'lower-numbered jobs are removed')
+def r9(cx):
+    F = cx.F
+    cx.require(JL + 'remove' in F.bodies and JL + 'update_status' in F.bodies, 'JobList::remove / update_status not found')
+    for f in _INDEX_FIELDS:
+        cx.require(any(fl['name'] == f and fl['ty'] == 'usize' for v in F.adt(JOBLIST)['variants'] for fl in v['fields']),
+                   'JobList::%s is no longer a usize field' % f)
+    eng = _CountFlow(F)
+    found = {}
+    for fn, body in F.bodies.items():
+        init = {}
+        if body.kind == 'fn' or '{closure' not in fn:
+            init = {n: frozenset([('P', n, _VAL)]) for n in range(1, body.argc + 1) if 'usize' in (body.locals[n].get('ty') or '')}
+        ret, hits = eng.analyse(fn, init)
+        for x, kind, root, loc in hits:
+            if x[0] != 'P':
+                found[(x, kind, root)] = loc
+    # what was looked at
+    n_field = n_key = 0
+    for (root, kind), loc in sorted(eng.sinks.items()):
+        cx.fn(root)
+        cx.site('%s: job index consumed (%s) at %s' % (root, kind, loc))
+        if kind in _INDEX_FIELDS:
+            n_field += 1
+        else:
+            n_key += 1
+    cx.floor(n_field, 6, '(function, field) pairs writing current_job_index / previous_job_index')
+    cx.floor(n_key, 6, 'functions passing a key to an accessor of the job slab')
+    in_job = [(fn, what, loc) for (fn, what), loc in sorted(eng.sources.items()) if fn.startswith('yash_env::job::') or fn.startswith('<yash_env::job::')]
+    cx.floor(len(in_job), 2, 'counting calls (len / count / position / enumerate) in yash_env::job recognised as sources')
+    cx.floor(len(eng.sources), 100, 'counting calls in the workspace recognised as sources')
+    for fn, what, loc in in_job:
+        cx.site('%s: %s() at %s yields a count, not a job index' % (fn, what, loc))
+    # positive control: the engine follows the real selection code - the key of the slab iterator's pairs, through the
+    # filter/map/next (or loop) of the private finders, unwrap_or / unwrap_or_else and their closures, into the index fields
+    control = sorted((root, kind, loc, x[1]) for (x, kind, root), loc in found.items() if x[0] == 'K')
+    for root, kind, loc, src in control:
+        cx.site('control: the slab key from %s (%s) reaches %s in %s at %s' % (src[1], src[2], kind, root, loc))
+    cx.require(any(kind in _INDEX_FIELDS and root == JL + 'remove' for root, kind, loc, src in control),
+               'the flow engine no longer follows the slab iterator key into the previous/current job index in JobList::remove '
+               '(the selection code changed shape: review rules/C12.py R9)')
+    cx.sample({'sources': len(eng.sources), 'sinks': len(eng.sinks), 'bodies': len(F.bodies), 'control_flows': len(control)})
+    for (x, kind, root), loc in sorted(found.items(), key=repr):
+        if x[0] != 'S':
+            continue
+        what, sfn, sloc = x[1]
+        where = 'JobList::%s' % kind if kind in _INDEX_FIELDS else 'the key of a job slab accessor'
+        cx.violation(root, 'count-as-job-index:%s:%s' % (kind, what),
+                     'the result of %s() in %s (%s) - a number that counts iterations/elements - is used as a job index (%s): it equals the '
+                     'job\'s index only while no lower job number is vacant; after a lower-numbered job has been removed it designates '
+                     'another job or a vacant slot (e.g. %%- / the previous job "not found" although two jobs exist, or the wrong job is '
+                     'resumed/waited for)' % (what, sfn, sloc, where), loc=loc)
+
+
+RS.explanation += (' No count (Iterator::position/rposition, enumerate().0, count(), len()) ever flows into current_job_index / previous_job_index '
+                   'or into the key of a job slab accessor, followed through helpers, closures and Option/iterator adapters (R9).')
